@@ -260,7 +260,7 @@ import os, collections
 import stage as _stage, gen_conf, gen_lean, oracle_inputs
 
 C20_FAMILIES = [("sid_strings", 600), ("sid_forms", 120), ("query", 400), ("paths", 80), ("unfold", 400), ("listfind", 300)]
-C20_ORACLES = [("C01", 500), ("C02", 300), ("C03", 300), ("C04", 300), ("C05", 200), ("C06", 200), ("C07", 300), ("C08", 60), ("C11", 6)]
+C20_ORACLES = [("C01", 500), ("C02", 300), ("C03", 300), ("C04", 300), ("C05", 200), ("C06", 200), ("C07", 300), ("C08", 60), ("C11", 6), ("C14", 150)]
 
 
 def _alt_conf(seed, idx, unmodelled=False):
@@ -520,6 +520,16 @@ def oracle_ALTP(run, n):
     implementation on the paths family, and the C05 / C06 oracles.  Failures replay as C20's do."""
     fails = oracle_C20(run, n, fams=[("paths", 120)], oracles=[("C05", 250), ("C06", 300)], tag="ALTP", kernel=False)
     return fails + _unmodelled_paths(run)
+
+
+def oracle_ALTV(run, n):
+    """the VALUE properties of Sids (C14: nothing alters a Sid — asking for its path included) under the first `n`
+    generated configuration packages: path defaults for a free Sid key, mappings, a third path configuration"""
+    return oracle_C20(run, n, fams=[], oracles=[("C14", 300)], tag="ALTV", kernel=False)
+
+
+SPECIAL["ALTV"] = oracle_ALTV
+REPLAY["ALTV"] = lambda d, inp: replay_C20(d, inp)
 
 
 def _unmodelled_paths(run, idx=0):
